@@ -1,0 +1,13 @@
+// SPDX-FileCopyrightText: 2026 The Pion community <https://pion.ly>
+// SPDX-License-Identifier: MIT
+
+//go:build verif
+
+package sequencenumber
+
+// VerifSet puts the unwrapper into an initialised state whose last result is `last`
+// (verification hook: lets the harness start from large unwrapped values).
+func (u *Unwrapper) VerifSet(last int64) {
+	u.init = true
+	u.lastUnwrapped = last
+}
